@@ -543,3 +543,73 @@ if __name__ == '__main__':
         if r['writes'] or r['rng'] or r['seeded'] or r['captures']:
             print(q, 'PUBLIC' if r['public'] else '', sorted(r['writes']), sorted(r['rng']), 'seeded' if r['seeded'] else '', sorted(r['captures']))
     print('caches', caches); print('module state', ms)
+
+
+# ---------------------------------------------------------------------------------------------- `inplace=` gates
+_MUTATORS = {'append', 'extend', 'insert', 'pop', 'remove', 'clear', 'sort', 'reverse', 'update', 'fill', 'put', 'resize', 'setdefault', 'popitem',
+             'itemset', 'setfield', 'setflags', 'partition', 'byteswap', '__setitem__', '__iadd__', '__isub__', '__imul__'}
+
+def _root(e):
+    while isinstance(e, (ast.Attribute, ast.Subscript, ast.Starred)): e = e.value
+    return e.id if isinstance(e, ast.Name) else None
+
+def _path(e):
+    """first attribute below the root name: plane.opd[...] -> 'opd'"""
+    chain = []
+    while isinstance(e, (ast.Attribute, ast.Subscript)):
+        if isinstance(e, ast.Attribute): chain.append(e.attr)
+        e = e.value
+    return chain[-1] if chain else ''
+
+def inplace_gate_generator(repo):
+    """functions with an `inplace` parameter: the gate statement (`V = self` / `V = self.copy()`), and every write site of the body classified by
+    the name it goes through — the gate variable `V` (switched by the flag) or the parameter itself (would bypass the gate)"""
+    pkg = os.path.join(repo, 'lentil')
+    rows = []
+    for fn in sorted(os.listdir(pkg)):
+        if not fn.endswith('.py'): continue
+        tree = ast.parse(open(os.path.join(pkg, fn)).read())
+        defs = [(f'{fn[:-3]}.{n.name}', n) for n in tree.body if isinstance(n, ast.FunctionDef)]
+        for c in tree.body:
+            if isinstance(c, ast.ClassDef): defs += [(f'{fn[:-3]}.{c.name}.{n.name}', n) for n in c.body if isinstance(n, ast.FunctionDef)]
+        for q, f in defs:
+            params = [a.arg for a in f.args.args + f.args.kwonlyargs]
+            if 'inplace' not in params: continue
+            body = [st for st in f.body if not (isinstance(st, ast.Expr) and isinstance(st.value, ast.Constant))]
+            g = body[0] if body else None
+            var = tgt = other = None
+            if isinstance(g, ast.If) and ast.unparse(g.test) == 'inplace' and len(g.body) == 1 and len(g.orelse) == 1 and all(
+                    isinstance(x, ast.Assign) and len(x.targets) == 1 and isinstance(x.targets[0], ast.Name) for x in (g.body[0], g.orelse[0])) \
+                    and g.body[0].targets[0].id == g.orelse[0].targets[0].id and isinstance(g.body[0].value, ast.Name):
+                var, tgt, other = g.body[0].targets[0].id, g.body[0].value.id, ast.unparse(g.orelse[0].value)
+            elif isinstance(g, ast.Assign) and len(g.targets) == 1 and isinstance(g.targets[0], ast.Name) and isinstance(g.value, ast.IfExp) \
+                    and ast.unparse(g.value.test) == 'inplace' and isinstance(g.value.body, ast.Name):
+                var, tgt, other = g.targets[0].id, g.value.body.id, ast.unparse(g.value.orelse)
+            if var is None or tgt not in params or var == tgt: raise Refuse(f'{q}: `inplace` gate not understood: {ast.unparse(g)[:70] if g else "empty body"}')
+            direct, gated = [], []
+            for st in body[1:]:
+                for n in ast.walk(st):
+                    sites = []
+                    if isinstance(n, ast.Assign): sites = [t for t in n.targets if not isinstance(t, ast.Name)]
+                    elif isinstance(n, (ast.AugAssign, ast.AnnAssign)) and not isinstance(n.target, ast.Name): sites = [n.target]
+                    elif isinstance(n, ast.Delete): sites = [t for t in n.targets if not isinstance(t, ast.Name)]
+                    elif isinstance(n, ast.Call) and isinstance(n.func, ast.Attribute) and n.func.attr in _MUTATORS: sites = [n.func.value]
+                    elif isinstance(n, ast.Call) and ast.unparse(n.func) in ('setattr', 'delattr') and n.args: sites = [ast.Attribute(value=n.args[0], attr='?', ctx=ast.Load())]
+                    elif isinstance(n, ast.Call):
+                        sites = [k.value for k in n.keywords if k.arg == 'out']
+                    elif isinstance(n, (ast.Assign,)) and any(isinstance(t, ast.Name) and t.id in (var, tgt) for t in n.targets): raise Refuse(f'{q}: gate variable rebound')
+                    for t in sites:
+                        for el in (t.elts if isinstance(t, (ast.Tuple, ast.List)) else [t]):
+                            r = _root(el)
+                            if r == var: gated.append(_path(el))
+                            elif r == tgt: direct.append(_path(el))
+                    if isinstance(n, ast.Assign) and any(isinstance(t, ast.Name) and t.id in (var, tgt) for t in n.targets): raise Refuse(f'{q}: gate variable `{var}` is rebound after the gate')
+            rows.append((q, tgt, var, other, sorted(set(direct)), sorted(set(gated))))
+    def L(xs): return '[' + ', '.join(_s(x) for x in xs) + ']'
+    text = ('/-- functions with an `inplace=` parameter, read off the source: (function, parameter the flag protects, expression worked on when the flag is\n'
+            'off, attributes written DIRECTLY through the parameter — bypassing the flag —, attributes written through the gate variable) -/\n'
+            'def effInplaceGates : List (String × String × String × List String × List String) := [' +
+            ', '.join(f'({_s(q)}, {_s(t)}, {_s(o)}, {L(d)}, {L(gd)})' for q, t, v, o, d, gd in rows) + ']\n')
+    return text, [f'{q}: {v} = {t} if inplace else {o}; direct writes {d}; gated writes {gd}' for q, t, v, o, d, gd in rows]
+
+MODULES.append({'name': 'InplaceGate', 'src': 'lentil/plane.py', 'generator': _robust(inplace_gate_generator, '`inplace=` gates'), 'props': ['C10']})
